@@ -1,5 +1,5 @@
 P = {
-    "gens": ["C19arith", "C19core", "C19stress"],
+    "gens": ["C19arith", "C19core", "C19stress", "C19names"],
     "theorems": ["C19_range", "C19_monotone", "C19_gate", "C19_gate_real", "C19_gate_unknown_peer",
                  "C19_no_concurrent_map_fault"],
     "rule": "value sweeps: all triples of 14 boundary values (0, 1, denormals, 2^-53, 2^-54, 0.5+-ulp, 1-2^-53, ...) "
@@ -18,6 +18,11 @@ P = {
             "12) goroutines at once through NotifyNewBundle (one of them through the Core's whole reception path) next to peers "
             "appearing, ageing, pending check, sendMetadata and state reads - fixed amount of work, 4 (8) children; the child must "
             "survive and every predictability it holds must be in [0,1]. "
+            "C19names: the gate and event-sequence cases of the real Core with node names that nearly collide between the bundle's "
+            "destination, the connected peers and the peers in the predictability maps (letter case: dtn://relay7/ vs dtn://Relay7/; "
+            "prefixes: dtn://m1/ vs dtn://m10/, dtn://a/ vs dtn://a.b/; the same number under the other scheme: ipn:5.1 vs dtn://5/), "
+            "random sets of connected peers, vectors and own values from {0, .25, .5, .75, 1}, one data bundle per node: a peer that is "
+            "not the destination node (exact node endpoint ID) gets the bundle only through the gate. "
             "distinct = distinct case bodies",
     "assumptions": ["configuration constants and received predictabilities are finite binary64 values in [0,1] (C19_range, C19_monotone)",
                     "amd64 float64 semantics without FMA contraction (GOAMD64=v1)"],
